@@ -10,7 +10,7 @@ import processscheduler as ps
 from symx.formula import And, Or, Not, Implies, Sum, b2i, to_z3
 from symx import formula
 from symx.harness import Shape, Ob, Ctx, run_property
-from checks.common import make_task, new_problem
+from checks.common import make_task, new_problem, buffer_witness
 
 PROP = "C09"
 
@@ -104,10 +104,14 @@ def make_shape(concurrent, ops, opts, kinds=None, two_buffers=False, horizon=Fal
         return ctx
 
     def obligations(ctx):
-        obs = [Ob(f"{PROP}/{name}/{cn}", "sound", clause=cl) for cn, cl in buffer_clauses(ctx)]
+        # concurrent buffers: the forall-defined quantity functions are replaced by the lambdas their
+        # definitions describe (equisatisfiable: each definition determines its function), which keeps the
+        # soundness queries quantifier-free
+        phi = buffer_witness(list(ctx.phi)) if ctx.concurrent else None
+        obs = [Ob(f"{PROP}/{name}/{cn}", "sound", clause=cl, phi=phi) for cn, cl in buffer_clauses(ctx)]
         if two_buffers:
             o = ctx.other
-            obs += [Ob(f"{PROP}/{name}/second_{cn}", "sound", clause=cl) for cn, cl in buffer_clauses(o)]
+            obs += [Ob(f"{PROP}/{name}/second_{cn}", "sound", clause=cl, phi=phi) for cn, cl in buffer_clauses(o)]
         if ctx.concurrent and len(ctx.accesses) >= 2:
             obs.append(Ob(f"{PROP}/{name}/simultaneous_access_admitted", "custom", fn=_tie_admitted))
         return obs
